@@ -452,7 +452,28 @@ func (e *bcEngine) Exec(f []string) Result {
 				}
 				// the second packet must be about ANOTHER request (otherwise it would overtake the client's own reaction
 				// to the first one, e.g. PUBCOMP before PUBREL was sent: a different scenario from the scripted one)
-				if fastNext == 2 && i+2 < len(evs) && evID(evs[i+2]) != evID(ev) && evID(evs[i+2]) != "" {
+				// … and must be inert: an acknowledgement that makes the client neither write (PUBREC → PUBREL) nor close the
+				// connection (a SUBACK whose code count does not match its request), because that reaction would race with
+				// what the writing caller does next
+				inert := func(e string) bool {
+					t := strings.Split(e, ":")
+					switch t[0] {
+					case "pa", "pc", "ua":
+						return true
+					case "sa":
+						if len(t) < 3 {
+							return false
+						}
+						for _, e2 := range evs[:i] {
+							t2 := strings.Split(e2, ":")
+							if t2[0] == "sub" && len(t2) > 2 && t2[2] == t[1] {
+								return atoi(t2[1]) == len(mustDesc(t[2]))
+							}
+						}
+					}
+					return false
+				}
+				if fastNext == 2 && i+2 < len(evs) && evID(evs[i+2]) != evID(ev) && evID(evs[i+2]) != "" && inert(evs[i+2]) {
 					if ack2 = bcAckBytes(evs[i+2]); ack2 != nil {
 						fed[i+2] = true
 						extraFed[i] = evs[i+2]
